@@ -129,11 +129,11 @@ length = max_req_len
 if (offset + length) > record_length: length = record_length - offset
 try: (next_id, data[, reservation_id]) = get_fn(reservation_id, record_id, offset, length)
 except CompletionCodeError as e:
-    [reservation_id = getattr(e, 'reservation_id', reservation_id)]     # intended only
     if e.cc == CC_CANT_RET_NUM_REQ_BYTES:
         max_req_len -= 4
         if max_req_len <= 0: raise RetryError() # as shipped (816fdee): retry = 0
-        continue                                # as shipped: missing (falls through to the append)
+        [reservation_id = getattr(e, 'reservation_id', reservation_id)]     # staleRes = false only
+        continue                                # as shipped (816fdee): missing (falls through to the append)
     else: raise CompletionCodeError(e.cc)
 record_data.extend(data[:]); offset = len(record_data)
 if len(record_data) >= record_length: break
